@@ -122,6 +122,7 @@ Record loc1 (s : st) (j : nat) (x : inp) : Prop := {
   l_none : ires x = None -> iw x <> WR;
   l_begun : ipc x <> PIdle -> iw x = WR /\ j < nreg s /\ ires x <> None;
   l_wc : iw x = WC -> j < nreg s;
+  l_reg : j < nreg s -> iw x <> WE;
   l_lost : j < nreg s -> iw x = WR -> ipc x <> PIdle;
   l_cons : icons x = if begun (ipc x) then 1 else 0;
   l_pcons : ipc x = PCons -> owned (sg s) = false;
@@ -144,13 +145,18 @@ Record I1 (s : st) : Prop := {
   i_dt_some : forall d, dt s = Some d -> count s = 0 /\ d < n s
 }.
 
+Lemma cnt_xended_upd i f l x :
+  nth_error l i = Some x ->
+  cnt xended (upd i f l) + (if ended (ipc x) then 1 else 0) = cnt xended l + (if ended (ipc (f x)) then 1 else 0).
+Proof. intros H. exact (cnt_upd xended i f l x H). Qed.
+
 Lemma I1_init g k : I1 (init g k).
 Proof.
   constructor; simpl.
   - apply repeat_length.
   - lia.
-  - intros j x H. apply nth_repeat in H. subst. constructor; simpl; try congruence; try tauto; try discriminate.
-    intros [H|[H|H]]; discriminate.
+  - intros j x H. apply nth_repeat in H. subst. constructor; simpl; intros;
+      repeat match goal with H : _ \/ _ |- _ => destruct H end; try congruence; try discriminate; try lia.
   - rewrite cnt_zero; [lia|]. intros i x H. apply nth_repeat in H. subst. reflexivity.
   - intros _. repeat split; auto.
   - discriminate.
